@@ -446,6 +446,33 @@ pub fn family_boxed(rng: &mut Rng, n: usize, out: &mut Vec<Desc>) {
     }
 }
 
+/// terminal positions with minimal material: a lone king (optionally with one minor piece) to move against king + one
+/// minor piece, exhaustive over edge squares; kept when the side to move has no legal move (stalemates that are also
+/// insufficient-material positions: the precedence between the two verdicts).
+pub fn family_minor_stalemates(out: &mut Vec<Desc>) {
+    for k in 0..64usize {
+        let (kr, kf) = (k / 8, k % 8);
+        if !(kr == 0 || kr == 7 || kf == 0 || kf == 7) { continue }
+        for ok in 0..64usize {
+            if ok == k || adjacent(ok, k) { continue }
+            let dist = std::cmp::max((ok / 8).abs_diff(kr), (ok % 8).abs_diff(kf));
+            if dist > 2 { continue }
+            for m in 0..64usize {
+                if m == k || m == ok { continue }
+                for pc in [b'B', b'N'] {
+                    let mut d = Desc::empty();
+                    d.stm = b'b';
+                    d.pl[k] = b'k'; d.pl[ok] = b'K'; d.pl[m] = pc;
+                    let b = match d.build_setup() { Ok(Ok(b)) => b, _ => continue };
+                    if !b.get_legal_moves().is_empty() { continue }
+                    out.push(d.clone());
+                    out.push(d.flipped());
+                }
+            }
+        }
+    }
+}
+
 /// en-passant capture made illegal by a rank attack (king, capturer, victim and an enemy rook/queen on one rank),
 /// with the king boxed in: kept when the library reports at most one legal move
 pub fn family_ep_boxed(rng: &mut Rng, n: usize, out: &mut Vec<Desc>) {
